@@ -134,6 +134,7 @@ int   sim_fault(const char *site);
 int   sim_fault_pending_total(void);
 int   sim_faults_fired(void);          /* error-injecting faults only (short transfers excluded) */
 int   sim_fault_fired_site(const char *site);
+int   sim_fault_fired_op(int op);         /* faults attached to plan op `op` that fired so far */
 
 /* simulated timerfd / clock / pidfd access for harness oracles */
 typedef struct sim_timer_rec {
